@@ -102,6 +102,13 @@ def field_pair(rng, p):
         got = unreduced_pair(rng, p)
         if got:
             return got[0], got[1], 'unreduced-target'
+    if k == 11 and rng.random() < 0.5:
+        # the sum of the stored representatives just below / above p or 2^256 (same top limb as the modulus but smaller overall, ...)
+        S = rng.choice([p, R]) + rng.choice([-1, 1]) * rng.getrandbits(rng.choice([1, 8, 64, 128, 190, 192, 200]))
+        A = rm.mont(a, p)
+        B = S - A
+        if 0 <= B < p:
+            return a, rm.unmont(B, p), 'sum-target'
     if k == 11:
         # product equal to a boundary value: (a, c/a)
         c = fixed_values(p)[rng.randrange(len(fixed_values(p)))] % p
@@ -523,6 +530,10 @@ def identity(prog, rng, which, rep):
     if rep == 'new0':
         x = rng.randrange(q) if which == 1 else (rng.randrange(q), rng.randrange(q))
         y = rng.randrange(q) if which == 1 else (rng.randrange(q), rng.randrange(q))
+        if rng.random() < 0.35:
+            # degenerate junk: (0, 0, 0), (0, y, 0), (x, 0, 0), (1, 1, 0)
+            x = rng.choice([F.zero, F.zero, F.one, x])
+            y = rng.choice([F.zero, F.zero, F.one, y])
         return prog.let(g + '.lit', F.enc(x) + F.enc(y) + F.enc(F.zero))[0]
     if rep == 'sub':
         k = rng.randrange(1, r)
